@@ -21,6 +21,6 @@ TraceSpec == TraceInit /\ [][TraceNext]_<<l, vars>>
 Verdicts == l >= 1 => Monitor(ScenarioOK(Trace[l]), [l |-> l, id |-> Trace[l].id])
 Drift == l >= 1 =>
     LET r == Trace[l] IN
-    (AnswersAgree(r) /\ r.attached = ExpectAttached(r)) \/ Emit("DRIFT", [l |-> l, id |-> r.id, agree |-> AnswersAgree(r)])
+    (AnswersAgree(r) /\ r.attached = ExpectAttached(r) /\ ReloadsAsExpected(r)) \/ Emit("DRIFT", [l |-> l, id |-> r.id, agree |-> AnswersAgree(r)])
 Accepted == TLCGet("stats").diameter - 1 = Len(Trace)
 =============================================================================
